@@ -355,11 +355,19 @@ theorem constraintLoop_bal (ts) : Bal (constraintLoop ts) := by
     simp only [Bal, he] at ih
     unfold constraintLoop; split <;> simp [Bal, ih]
 
+theorem versionTok_bal (ts) : Bal (versionTok ts) := by
+  unfold versionTok; split
+  · refine bal_andThen (bump1_bal _) fun x => ?_
+    split
+    · exact bal_andThen (bump1_bal _) (expect_bal _ _)
+    · exact bal_nil x
+  · exact errorTok_bal _ ts
+
 theorem versionPart_bal (ts) : Bal (versionPart ts) := by
   unfold versionPart; split
   · exact bal_andThen (skipWs_bal _) fun _ => bal_wrap _ (by decide) (bal_andThen (bump1_bal _) fun _ =>
       bal_andThen (skipWs_bal _) fun _ => bal_andThen (bal_wrap _ (by decide) (constraintLoop_bal _)) fun _ =>
-      bal_andThen (skipWs_bal _) fun _ => bal_andThen (expect_bal _ _ _) (expect_bal _ _))
+      bal_andThen (skipWs_bal _) fun _ => bal_andThen (versionTok_bal _) (expect_bal _ _))
   · exact bal_nil ts
 
 theorem archLoop_bal (ts) : Bal (archLoop ts) := by
